@@ -244,7 +244,7 @@ theorem setStorage_pb (cid : Nat) (m : Mod) (s : State) (live : List Live) :
       | none => exact h1.trans (PB.of_mpool rfl)
       | some r => exact h1
 
-theorem restoreStorage_mpool (s : State) : (restoreStorage s).mpool = s.mpool := by
+theorem restoreStorage_mpool (p : Nat) (s : State) : (restoreStorage p s).mpool = s.mpool := by
   unfold restoreStorage; split <;> rfl
 
 theorem provisionContext_mp (cid : Nat) (c : Cfg) (pp : List Nat) (s : State) :
@@ -259,7 +259,7 @@ theorem provisionContext_mp (cid : Nat) (c : Cfg) (pp : List Nat) (s : State) :
   cases o1 with
   | some r =>
     refine ⟨fun _ _ k => ?_, fun hh => by simp at hh⟩
-    show (restoreStorage (cancel cid (onCancelOnCopy [] 0) wk live1 s1)).mpool k = _
+    show (restoreStorage _ (cancel cid (onCancelOnCopy [] 0) wk live1 s1)).mpool k = _
     rw [restoreStorage_mpool, show onCancelOnCopy [] 0 = ([] : List Nat) from rfl, cancel_mpool]
     have := h1 k
     rw [e0] at this
@@ -273,7 +273,7 @@ theorem provisionContext_mp (cid : Nat) (c : Cfg) (pp : List Nat) (s : State) :
     cases o1' with
     | some r =>
       refine ⟨fun _ _ k => ?_, fun hh => by simp at hh⟩
-      show (restoreStorage (cancel cid (onCancelOnCopy [] 0) wk live1' s1')).mpool k = _
+      show (restoreStorage _ (cancel cid (onCancelOnCopy [] 0) wk live1' s1')).mpool k = _
       rw [restoreStorage_mpool, show onCancelOnCopy [] 0 = ([] : List Nat) from rfl, cancel_mpool]
       have := h1' k
       rw [e0] at this
@@ -287,7 +287,7 @@ theorem provisionContext_mp (cid : Nat) (c : Cfg) (pp : List Nat) (s : State) :
       cases o2 with
       | some r =>
         refine ⟨fun _ _ k => ?_, fun hh => by simp at hh⟩
-        show (restoreStorage (cancel cid (onCancelOnCopy [] 0) wk live2 s2)).mpool k = _
+        show (restoreStorage _ (cancel cid (onCancelOnCopy [] 0) wk live2 s2)).mpool k = _
         rw [restoreStorage_mpool, show onCancelOnCopy [] 0 = ([] : List Nat) from rfl, cancel_mpool]
         have := h2 k
         rw [e0] at this
